@@ -671,10 +671,110 @@ func vC15PlainName(r *rand.Rand) string {
 	}
 }
 
+// vC15EscLabel: one label in presentation form with escapes: \DDD (also > 255: the library wraps
+// modulo 256), an escaped dot, an escaped backslash, a backslash in front of an ordinary letter or
+// of one or two digits only, plain letters in between.  With decoded = 63 / 64 the label DECODES to
+// exactly that many octets (the 63-octet limit is on the decoded label, the text is longer).
+func vC15EscLabel(r *rand.Rand, decoded int) string {
+	n := decoded
+	if n == 0 {
+		n = 1 + r.Intn(6)
+	}
+	var sb strings.Builder
+	for i := 0; i < n; i++ {
+		switch r.Intn(9) {
+		case 0:
+			sb.WriteString(fmt.Sprintf(`\%03d`, r.Intn(256)))
+		case 1:
+			sb.WriteString(`\.`)
+		case 2:
+			sb.WriteString(`\\`)
+		case 3:
+			sb.WriteString(`\` + string(rune('a'+r.Intn(26))))
+		case 4:
+			// a backslash and one or two digits, then a letter: not \DDD, the first digit is taken literally
+			if i+3 <= n && r.Intn(2) == 0 {
+				sb.WriteString(fmt.Sprintf(`\%d%dx`, r.Intn(10), r.Intn(10)))
+				i += 2
+			} else if i+2 <= n {
+				sb.WriteString(fmt.Sprintf(`\%dx`, r.Intn(10)))
+				i++
+			} else {
+				sb.WriteByte('q')
+			}
+		case 5:
+			if r.Intn(6) == 0 {
+				sb.WriteString(fmt.Sprintf(`\%03d`, 256+r.Intn(744))) // 256..999: modulo 256
+				break
+			}
+			sb.WriteByte("abcxyz019-_"[r.Intn(11)])
+		default:
+			sb.WriteByte("abcdefghijklmnopqrstuvwxyz0123456789-"[r.Intn(37)])
+		}
+	}
+	return sb.String()
+}
+
+// vC15EscName: a name with escapes in some label, mostly valid and sharing suffixes with the plain
+// names; plus the shapes on which IsFqdn and the label loop decide: an escaped final dot (not fully
+// qualified), an even run of backslashes in front of the final dot (fully qualified), two digits
+// and the label's dot after a backslash, decoded labels of 63 and 64 octets.
+func vC15EscName(r *rand.Rand) string {
+	tail := []string{"example.com.", "example.org.", "com.", "a.example.com.", `ex\.ample.com.`, `\065.example.com.`}[r.Intn(6)]
+	switch r.Intn(12) {
+	case 0:
+		return []string{`abc\.`, `a\\.`, `a\\\.`, `a\\\\.`, `\.`, `\..`, `\\.`, `\12.com.`, `\1.com.`, `a\`, `a.b\`}[r.Intn(11)]
+	case 1:
+		return vC15EscLabel(r, 63) + "." + tail
+	case 2:
+		return vC15EscLabel(r, 64) + "." + tail
+	case 3:
+		return vc15gen.VC15Name(r)
+	case 4: // an escape in the LAST label only
+		return "www.example." + vC15EscLabel(r, 0) + "."
+	}
+	n := 1 + r.Intn(3)
+	parts := make([]string, n)
+	for i := range parts {
+		if r.Intn(3) == 0 {
+			parts[i] = []string{"www", "a", "mail", "EXAMPLE"}[r.Intn(4)]
+		} else {
+			parts[i] = vC15EscLabel(r, 0)
+		}
+	}
+	return strings.Join(parts, ".") + "." + tail
+}
+
+// vC15AnyName: a plain name, or (1 in 4) one with escapes.
+func vC15AnyName(r *rand.Rand) string {
+	if r.Intn(4) == 0 {
+		return vC15EscName(r)
+	}
+	return vC15PlainName(r)
+}
+
+// vC15LabelStarts: the offsets in the TEXT at which a label starts (escape-aware, the driver's own scan).
+func vC15LabelStarts(s string) []int {
+	out := []int{0}
+	for i := 0; i < len(s); i++ {
+		switch {
+		case s[i] == '\\':
+			if i+3 < len(s) && vC15Digit(s[i+1]) && vC15Digit(s[i+2]) && vC15Digit(s[i+3]) {
+				i += 3
+			} else {
+				i++
+			}
+		case s[i] == '.' && i+1 < len(s):
+			out = append(out, i+1)
+		}
+	}
+	return out
+}
+
 // vC15NameCase runs dns.PackDomainName on a zeroed buffer of a chosen length with a
 // chosen dictionary and records what it did, for C15.Concrete.pack_name_c.
 func vC15NameCase(tr *vC15Trace, r *rand.Rand) {
-	s := vC15PlainName(r)
+	s := vC15AnyName(r)
 	if r.Intn(12) == 0 {
 		s = []string{"", ".", "a.", "example.com", vC15PlainName(r) + "x"}[r.Intn(5)]
 	}
@@ -693,21 +793,19 @@ func vC15NameCase(tr *vC15Trace, r *rand.Rand) {
 	default:
 		cm = map[string]int{}
 		// suffixes of a sibling name (and sometimes of s itself) already in the dictionary
-		sib := vC15PlainName(r)
+		sib := vC15AnyName(r)
 		if r.Intn(2) == 0 && len(s) > 2 {
 			sib = "x." + s
 		}
 		pos := 12
-		for i := 0; i < len(sib); i++ {
-			if i == 0 || sib[i-1] == '.' {
-				if key := sib[i:]; key != "" && key != "." && r.Intn(3) != 0 {
-					if _, dup := cm[key]; !dup {
-						cm[key] = pos
-						initial = append(initial, [2]any{key, pos})
-					}
+		for _, i := range vC15LabelStarts(sib) {
+			if key := sib[i:]; key != "" && key != "." && r.Intn(3) != 0 {
+				if _, dup := cm[key]; !dup {
+					cm[key] = pos
+					initial = append(initial, [2]any{key, pos})
 				}
-				pos += 3 + r.Intn(9)
 			}
+			pos += 3 + r.Intn(9)
 		}
 		parts := make([]string, len(initial))
 		for i, e := range initial {
@@ -717,7 +815,10 @@ func vC15NameCase(tr *vC15Trace, r *rand.Rand) {
 	}
 	compress := r.Intn(3) != 0
 	// the uncompressed extent, then buffers exactly that long, one short, shorter, longer
-	need := off + len(s) + 1
+	need := off + vC15NameLen(s)
+	if s == "" {
+		need = off
+	}
 	buflen := need + []int{0, 0, -1, -2, 1, 7, 30, -len(s) / 2}[r.Intn(8)]
 	if buflen < 0 {
 		buflen = 0
@@ -767,7 +868,7 @@ func vC15NameCase(tr *vC15Trace, r *rand.Rand) {
 	}
 	line := map[string]any{
 		"coq": fmt.Sprintf("CaseName %s %d %d %s %s %s %d %s [%s]", vC15CoqName(s), buflen, off, cmCoq, vC15Bool(compress), vC15Bool(ok), off1, written, strings.Join(ap, ";")),
-		"k":   fmt.Sprintf("name/ok=%v/dict=%v/compress=%v", ok, cm != nil, compress),
+		"k":   fmt.Sprintf("name/ok=%v/dict=%v/compress=%v/esc=%v", ok, cm != nil, compress, strings.Contains(s, "\\")),
 		"desc": map[string]any{"name": s, "buflen": buflen, "off": off, "dict": len(before), "compress": compress, "ok": ok, "off1": off1, "added": len(added),
 			"err": vC15ErrStr(err)},
 		"nontrivial": ok && (len(added) > 0 || off1-off < len(s)),
@@ -862,12 +963,32 @@ func vC15ConcreteMore(r *rand.Rand, h dns.RR_Header, pick func() string) dns.RR 
 	rb := func(n int) []byte { d := make([]byte, n); r.Read(d); return d }
 	txt := func(max int) string {
 		d := rb(r.Intn(max + 1))
+		esc := r.Intn(3) == 0 // session 5: character-strings with escapes are decoded by the model
 		for i := range d {
-			if d[i] == '\\' {
+			if d[i] == '\\' && !esc {
 				d[i] = '/'
 			}
 		}
-		return string(d)
+		if !esc {
+			return string(d)
+		}
+		var sb strings.Builder
+		for _, c := range d {
+			switch r.Intn(8) {
+			case 0:
+				sb.WriteString(fmt.Sprintf(`\%03d`, r.Intn(1000)))
+			case 1:
+				sb.WriteString(`\` + string([]byte{c}))
+			case 2:
+				sb.WriteString(fmt.Sprintf(`\%d`, r.Intn(100)))
+			default:
+				sb.WriteByte(c)
+			}
+		}
+		if r.Intn(6) == 0 {
+			sb.WriteByte('\\') // a lone backslash at the very end: dropped, after one more octet of room was asked for
+		}
+		return sb.String()
 	}
 	switch r.Intn(10) {
 	case 0:
@@ -1008,6 +1129,9 @@ func vC15ConcreteMsg(r *rand.Rand) *dns.Msg {
 	}
 	m.Compress = r.Intn(4) != 0
 	base := vC15PlainName(r)
+	if vC15Force == nil && r.Intn(4) == 0 {
+		base = vC15EscName(r) // session 5: escaped names are part of the concrete model
+	}
 	pick := func() string {
 		switch r.Intn(5) {
 		case 0:
@@ -1015,6 +1139,9 @@ func vC15ConcreteMsg(r *rand.Rand) *dns.Msg {
 		case 1:
 			return "www." + base
 		case 2:
+			if vC15Force == nil && r.Intn(8) == 0 {
+				return vC15EscName(r)
+			}
 			return vC15PlainName(r)
 		case 3:
 			return strings.ToUpper(base)
@@ -1125,8 +1252,49 @@ func vC15ConcreteMsg(r *rand.Rand) *dns.Msg {
 	return m
 }
 
+// vC15ForceMsg, when set, is the message the next concrete case packs (the fixed escape family).
+var vC15ForceMsg *dns.Msg
+
+// vC15ConcreteEsc: on every run, messages whose QUESTION and owner names carry escapes, with and
+// without a dictionary (packQuestion is the packer's own code; the dictionary is keyed on the
+// source text), and character-strings with escapes incl. a lone backslash at the end.
+func vC15ConcreteEsc(tr *vC15Trace, r *rand.Rand) {
+	esc := `ex\.ample.\065bc.`
+	hdr := func(n string, t uint16) dns.RR_Header {
+		return dns.RR_Header{Name: n, Rrtype: t, Class: dns.ClassINET, Ttl: 300, Rdlength: 40001}
+	}
+	for i := 0; i < 6; i++ {
+		m := new(dns.Msg)
+		m.Id = uint16(4000 + i)
+		m.Response = true
+		m.Compress = i%2 == 1
+		qn := esc
+		if i >= 4 {
+			qn = vC15EscName(r)
+		}
+		m.Question = []dns.Question{{Name: qn, Qtype: dns.TypeA, Qclass: dns.ClassINET}}
+		switch i {
+		case 2, 3:
+			m.Answer = []dns.RR{
+				&dns.CNAME{Hdr: hdr(esc, dns.TypeCNAME), Target: "www." + esc},
+				&dns.CNAME{Hdr: hdr("www."+esc, dns.TypeCNAME), Target: `Abc.`},
+				&dns.TXT{Hdr: hdr(`a\\.`+esc, dns.TypeTXT), Txt: []string{`a\065\`, `\"q\"`, `\9\99\999`}},
+			}
+		case 4, 5:
+			m.Answer = []dns.RR{&dns.NS{Hdr: hdr(qn, dns.TypeNS), Ns: "ns." + qn}}
+			m.Ns = []dns.RR{&dns.CAA{Hdr: hdr(qn, dns.TypeCAA), Tag: "issue", Value: `ca\.example\`}}
+		}
+		vC15ForceMsg = m
+		vC15ConcreteCase(tr, r)
+		vC15ForceMsg = nil
+	}
+}
+
 func vC15ConcreteCase(tr *vC15Trace, r *rand.Rand) {
 	m := vC15ConcreteMsg(r)
+	if vC15ForceMsg != nil {
+		m = vC15ForceMsg
+	}
 
 	ref := vc15gen.VC15DeepCopy(m)
 	want, werr, wpanic := vc15gen.VC15LibPack(ref)
@@ -1478,6 +1646,7 @@ func TestVerifC15Wire(t *testing.T) {
 		vC15ConcreteCase(tr, r)
 	}
 	vC15ConcreteSweep(tr, r)
+	vC15ConcreteEsc(tr, r)
 	vC15HistoryCases(tr, r, 10+n/60)
 	vC15PlanPremise(tr, r, 2+n/500)
 	runtime.GOMAXPROCS(prev)
